@@ -194,6 +194,20 @@ CLAIMED["C15"] = dict(
     technique="jaxpr symbolic execution of two presentations in one trace + z3 identity / QF_LRA queries; float64 replay",
     design="§4 C15")
 
+CLAIMED["C16"] = dict(
+    text="Bounded symbolic check of forward-mode derivatives: the real function is traced under jax.jvp along an arbitrary "
+         "symbolic direction of all its array inputs (JAX applies its own rules and the library's single hand-written rule, "
+         "the custom JVP of qr_r, with the orthogonal factor as a contract M = QR, Q^T Q = I); the returned tangent must "
+         "equal the true directional derivative of the computed output, obtained by implicit symbolic differentiation of "
+         "the primal output polynomials and of the defining equations of every atom (triangular factors, solves, inverses, "
+         "roots). Decided by z3 QF_LRA on linearised obligations; disagreements are found by replaying jax.jvp against "
+         "Richardson central differences of the real function and reported with the failing point. Covers qr_r itself, "
+         "marginalise / revert / std of the three factorisations and one solver step. The known defect of the qr_r rule "
+         "and its consumers is listed in known_findings.json (KNOWN-FINDING lines, exit 0); reverse mode, singular points "
+         "and NaN propagation are outside.",
+    technique="jaxpr symbolic execution of jax.jvp traces + implicit symbolic differentiation + z3 QF_LRA (XL certificates); jvp-vs-finite-difference replay on the real code",
+    design="§4 C16")
+
 NOT_APPLICABLE = {
     "C01": "Global error vs the true (transcendental) ODE solution and observed convergence rates in floating point "
            "cannot be expressed as a bounded real-arithmetic query over the code; its mechanisms are decided under C02, C06, C07, C09.",
